@@ -6,6 +6,11 @@ VERIF = os.path.dirname(os.path.dirname(os.path.abspath(__file__)))
 
 # id -> (category, technique, level text, level note, design ref)
 CHECKS = {
+    "C02": ("model_checking",
+            "TLA+ grammars of annotations and ground values (AnnGrammar.tla) with the membership oracle Admits (PytdTypes.tla) checked by TLC; value terms confirmed by CPython; every (annotation, value, site) rendered into a module analysed by the real pytype; TLC (TraceC02.tla) judges err <=> ~Admits and attributes disagreements to documented deviations",
+            "TLC enumerates the depth-2 annotation grammar (236 annotations) and 91 ground values and checks the oracle's laws; for each annotation one module puts every value at the argument, return and annotated-assignment sites; the reported errors are judged by TLC against Admits. Disagreements are attributed to a known finding only when exactly one documented matcher deviation, modelled in the spec, explains them.",
+            "Trusted: TLC, the renderer terms.py (checked by CPython evaluation of every value expression), PEP 484 reading encoded in Admits. quick samples 110 non-scalar annotations by seed; thorough takes all.",
+            "DESIGN.md section 6, C02"),
     "C07": ("model_checking",
             "TLA+ spec Typegraph.tla/TypegraphOps.tla (API as actions, SolverRef as least fixed point) explored by TLC; every distinct graph state built in a real cfg.Program and queried; observed answers judged by TLC (TraceC07.tla) against the four clauses",
             "TLC enumerates every typegraph within the stated bounds (four exhaustive families: acyclic/cyclic, with/without conditions, source sets up to 2) and draws larger random graphs with -simulate; every graph is rebuilt in the real solver and every query (node, goal set <= 3) is judged by the declarative SolverRef evaluated by TLC: exact on acyclic unconditioned graphs, completeness under conditions, reachability and subset closure everywhere.",
@@ -25,7 +30,7 @@ CHECKS = {
 
 NOT_APPLICABLE = {}
 
-PENDING = ["C01", "C02", "C03", "C04", "C05", "C06", "C10", "C11", "C12", "C13",
+PENDING = ["C01", "C03", "C04", "C05", "C06", "C10", "C11", "C12", "C13",
            "C14", "C15", "C16", "C17", "C18", "C19", "C20"]
 
 
